@@ -356,6 +356,8 @@ def _linear_axis(ctx, prog):
             tt = strip(term)
             if isinstance(tt, tuple) and tt[0] == 'fld' and tt[2] == 'axis' and key != 'otherwise':
                 arms[key] = (bi, t)
+    if len(arms) < 3 and sites:
+        return _linear_axis_by_interpretation(ctx, prog, b)
     ctx.floor('R09.5 LinearAxis arms', len(arms), 3)
     for k in sorted(arms):
         bi, t = arms[k]
@@ -370,6 +372,60 @@ def _linear_axis(ctx, prog):
         w = algebra.word(b.term_local(0, (rets[0], None)))
         ok = len(w) == 3 and _is_self_fld(w[0][0], 'base') and w[2] == (X, 1) and all(e == 1 for a, e in w)
         ctx.check(ok, 'R09.5', 'tool::LinearAxis/word', b.where(rets[0]), b.path, 'forward must be base * translation * robot', found=_sw(w), detail=_sw(w))
+
+
+def _linear_axis_by_interpretation(ctx, prog, b):
+    """R09.5 when the translation is not chosen by three match arms (a zeroed array written at index `axis`, ..): the body is
+    interpreted for axis 0, 1, 2 with the library calls kept symbolic; the result must be base * T(distance on component axis) * robot."""
+    from .. import absint
+    from ..absint import Interp, Iv, Sym
+    from ..core import MachineryError
+    D = 0.375
+
+    def val(I, st, a):
+        while isinstance(a, tuple) and a and a[0] in ('ref', 'refval', 'mref'):
+            a = I.deref(a, st)
+        return a
+
+    def h_new(I, st, a, t, b2):
+        return Sym(('T',) + tuple(val(I, st, x) for x in a))
+
+    def h_mul(I, st, a, t, b2):
+        return Sym(('mul', val(I, st, a[0]), val(I, st, a[1])))
+
+    def h_forward(I, st, a, t, b2):
+        return Sym(('X', val(I, st, a[0]), val(I, st, a[1])))
+
+    def h_same(I, st, a, t, b2):
+        return a[0]
+    H = {'Mul::mul': h_mul, 'Kinematics::forward': h_forward, 'Deref::deref': h_same, 'AsRef::as_ref': h_same}
+    for bi, t in b.calls():
+        n = cname(mir.callee_name(t))
+        if n.split('::')[-1] == 'new' and 'Translation' in mir.callee_name(t):
+            H[n] = h_new
+
+    def flat(x):
+        if isinstance(x, Sym) and isinstance(x.tag, tuple) and x.tag[0] == 'mul':
+            return flat(x.tag[1]) + flat(x.tag[2])
+        return [x]
+    for k in range(3):
+        me = {'#adt': 'tool::LinearAxis', 'axis': k, 'base': Sym('base'), 'robot': Sym('robot')}
+        I = Interp(prog, H, fuel=20000, max_paths=8)
+        try:
+            outs = I.run(b.path, [('refval', me, ()), Iv(D, D), ('refval', Sym('joints'), ())])
+        except (absint.Unsupported, absint.Undecided) as e:
+            raise MachineryError('LinearAxis::forward could not be interpreted (%s): %s' % (type(e).__name__, e))
+        ok = False
+        found = None
+        if len(outs) == 1:
+            w = flat(outs[0].ret)
+            found = repr(w)
+            if len(w) == 3 and w[0] == Sym('base') and isinstance(w[2], Sym) and isinstance(w[2].tag, tuple) and w[2].tag[0] == 'X' and \
+                    w[2].tag[1] in (Sym('robot'), Sym(('deref', 'robot'))) and w[2].tag[2] == Sym('joints') and isinstance(w[1], Sym) and w[1].tag[0] == 'T' and len(w[1].tag) == 4:
+                comp = w[1].tag[1:]
+                ok = all(isinstance(c, Iv) and c.is_point() and c.lo == (D if i == k else 0.0) for i, c in enumerate(comp))
+        ctx.check(ok, 'R09.5', 'tool::LinearAxis/arm%d' % k, b.where(0), b.path,
+                  'axis %d must give base * translation(distance on component %d only) * robot.forward(joints)' % (k, k), found=found, detail='by interpretation')
 
 
 def _gantry(ctx, prog):
